@@ -171,6 +171,9 @@ package bttest
 
 //@ spec colFresh(c *btpb.Column) bool = fresh(c) && (cap(c.Cells) == 0 || fresh(c.Cells))
 //@ spec famFresh(f *btpb.Family) bool = fresh(f) && (cap(f.Columns) == 0 || fresh(f.Columns)) && forall j :: 0 <= j < len(f.Columns) ==> colFresh(f.Columns[j])
+// the tree below a row is newly allocated (since function entry): family array, families, column arrays, columns, cell arrays
+//@ spec treeFresh(r *btpb.Row) bool = (cap(r.Families) == 0 || fresh(r.Families)) && forall i :: 0 <= i < len(r.Families) ==> famFresh(r.Families[i])
+//@ spec rowFresh(r *btpb.Row) bool = fresh(r) && treeFresh(r)
 //@ spec colCopyOf(c *btpb.Column, o *btpb.Column) bool = c.Qualifier == old(o.Qualifier) && len(c.Cells) == old(len(o.Cells)) && forall k :: 0 <= k < len(c.Cells) ==> c.Cells[k] == old(o.Cells[k])
 //@ spec famCopyOf(f *btpb.Family, o *btpb.Family) bool = f.Name == old(o.Name) && len(f.Columns) == old(len(o.Columns)) && forall j :: 0 <= j < len(f.Columns) ==> colCopyOf(f.Columns[j], old(o.Columns[j]))
 
@@ -223,7 +226,7 @@ package bttest
 //@   property C01 C06
 //@   held t.mu r
 //@   modifies ghost(btReadEpoch), ghost(btReadRow)
-//@   ensures rowRep(result) && fresh(result)
+//@   ensures rowRep(result) && rowFresh(result)
 //@   ensures btReadEpoch == epoch
 //@   ensures btReadRow == obj(result)
 
